@@ -17,15 +17,19 @@ of `client_handshake` behind the call).  The groups are written bottom-up (last 
 because each one continues into the next.
 
 What is modelled as it is, odd or not
-* `handshake_waitdns`: the reply is decoded into `in[]` BEFORE the id / first-character test, so ignored replies
-  leave their bytes in `in[]` (`HState.inb`); a fitting error reply gives -2 (after `sleep(1)` for SERVFAIL), a
-  timeout -3; each caller treats them as the C text says (e.g. `handshake_downenctest` gives up at once on -2,
-  `handshake_version` retries; `handshake_qtypetest` has no retry at all).
-* the callers that `strncmp` a reply shorter than the constant (`BADLEN`, `BADIP`, `BADCODEC`, `Lazy`, `BADFRAG`)
-  or read `in[1]` of a one-byte reply (`fragsize_check`) read what EARLIER replies of the same function call left
-  in `in[]`: `inb` keeps it.  Bytes of `in[]` no reply of this call has written are stack garbage in C; the model
-  reads them as 0 (and for CNAME/TXT/MX/SRV answers the undecoded tail `read_dns_withq` leaves behind the decoded
-  bytes is not known to the model either: it only sees `buf[0..rv)`).
+* `handshake_waitdns`: a fitting error reply gives -2 (after `sleep(1)` for SERVFAIL), a timeout -3; each caller
+  treats them as the C text says (e.g. `handshake_downenctest` gives up at once on -2, `handshake_version` retries;
+  `handshake_qtypetest` has no retry at all).
+* the receive buffer `in[]`.  `handshake_waitdns` decodes every datagram into the caller's `in[]` BEFORE the id /
+  first-character test, so ignored and earlier replies do leave their bytes there (and the rest is stack garbage).
+  Since ee87c7d ("compare handshake replies only up to their length") no caller reads a byte of `in[]` at an index
+  `>= read` of the reply it is looking at: version needs `read >= 9` and reads `in[0..9)`; login terminates at
+  `in[read]`; the address reply needs `read == 5/17` and reads `in[0]`; the echo test needs `read >= slen + 4`; the
+  check-string tests need `read == 48`; the four switch handshakes compare a literal of n bytes only if `read >= n`;
+  `fragsize_check` returns at once for `read < 2`, reads `in[2]` only for `read >= 3`, `in[3]` only for `read > 3`
+  and the pattern only below `read`; the raw login needs `len >= 20`.  So `HState.inb` holds just the bytes of the
+  reply at hand (`in[0..read)`; `[]` after a timeout): nothing an earlier reply wrote can be observed
+  (`Lemmas/Hs.lean`, `hstep_residue_free`).  The length guards are written out in the model as in the C text.
 * `buflen` is 4096, or 4095 where the C passes `sizeof(in) - 1`; the `Rq` the model is fed was produced with a
   64 KiB buffer, the model cuts it at `buflen` (exact for NULL/PRIVATE/A/CNAME answers and for every TXT/MX/SRV
   answer that decodes to at most `buflen` bytes).
@@ -66,7 +70,7 @@ structure HState where
   c : Cli
   /-- `none`: `client_handshake` is not running -/
   pos : Option HPos
-  /-- what the replies received so far by the running `handshake_*` function left in its `in[4096]` -/
+  /-- `in[0..read)` of the running `handshake_*` function: the bytes of the reply at hand -/
   inb : List Nat
   args : HsArgs
   /-- the 32 bytes `login_calculate` reads at `password` -/
@@ -110,6 +114,10 @@ def HState.inAt (s : HState) (k : Nat) : Nat := s.inb.getD k 0
 def HState.inIs (s : HState) (lit : String) : Bool :=
   let l := ascii lit
   (List.range l.length).all fun k => s.inAt k == l.getD k 0
+
+/-- `read >= |lit| && strncmp(lit, in, |lit|) == 0` -/
+def HState.inIsN (s : HState) (read : Int) (lit : String) : Bool :=
+  decide (read ≥ ((ascii lit).length : Int)) && s.inIs lit
 
 /-! ### the senders (`send_query` = `sendQueryPlain`, see the header) -/
 
@@ -156,7 +164,8 @@ def sendFragsizeProbe (c : Cli) (fragsize : Nat) : Res :=
   let probedata := fill :: max 1 (c.randSeed / 256 % 256) :: List.replicate 254 fill
   let b := buildHostname c.dataenc.codec c.hostnameMaxlen 4091 0 c.topdomain probedata
   let f := fragsize % 2048
-  let hdr := [114, b32_5to8 (c.userid * 2 + ((f / 1024 % 2 : Nat) : Int)), b32_5to8 ((f / 32 % 32 : Nat) : Int),
+  -- `((userid & 15) << 1) | ((fragsize >> 10) & 1)` (d07a0ed; before: `userid << 1`, the same character)
+  let hdr := [114, b32_5to8 ((maskI c.userid 16 * 2 + f / 1024 % 2 : Nat) : Int), b32_5to8 ((f / 32 % 32 : Nat) : Int),
               b32_5to8 ((f % 32 : Nat) : Int), 100]
   (sendQueryPlain (bumpSeed c) (hdr ++ b.name)).1
 
@@ -169,11 +178,11 @@ def sendRawUdpLogin (s : HState) (seed : Nat) : Res :=
 /-- one round of `while (1)` in `handshake_waitdns(dns_fd, in, buflen, c1, c1 - 32, timeout)` on what `select`
 delivered: `none` = `continue`; otherwise the return value.  The state carries the clock (`sleep(1)`) and `in[]`. -/
 def hsWaitRound (s : HState) (c1 buflen : Nat) : WaitIn → HState × Option Int
-  | .timeout => (s, some (-3))
+  | .timeout => ({ s with inb := [] }, some (-3))
   | .ans rq =>
     -- read_dns_withq(dns_fd, 0, buf, buflen, &q)
     let k := min rq.rv.toNat buflen
-    let s := { s with inb := rq.buf.take k ++ s.inb.drop k }
+    let s := { s with inb := rq.buf.take k }
     if rq.id ≠ s.c.chunkid ∨ (rq.name0 ≠ c1 ∧ rq.name0 ≠ c1 - 32) then (s, none)
     else if rq.rv < 0 then
       -- "Got empty reply" (NOERROR, first character Y/y/V/v) and every other error reply: -2; SERVFAIL sleeps first
@@ -205,15 +214,18 @@ def fragFinish (s : HState) (evs : List CEvent) (max : Int) : HOut :=
 
 /-- `fragsize_check(in, read, proposed, &max_fragsize)`: new `max_fragsize` and the return value (true = 1: break) -/
 def fragsizeCheck (s : HState) (read : Int) (proposed : Nat) (max : Int) : Int × Bool :=
-  let acked := s.inAt 0 * 256 + s.inAt 1
-  if read ≥ 5 ∧ s.inIs "BADIP" then (max, false)
-  else if acked ≠ proposed then (max, false)
-  else if read ≠ (proposed : Int) then (max, true)
-  else if s.inAt 2 ≠ 107 then (-1, true)
+  if read < 2 then (max, false)                        -- "no fragsize in this reply"
   else
-    let v0 := s.inAt 3
-    if (List.range (proposed - 3)).all fun j => s.inAt (3 + j) == (v0 + 107 * j) % 256 then ((acked : Int), true)
-    else (max, true)
+    let acked := s.inAt 0 * 256 + s.inAt 1
+    if read ≥ 5 ∧ s.inIs "BADIP" then (max, false)
+    else if acked ≠ proposed then (max, false)
+    else if read ≠ (proposed : Int) then (max, true)
+    else if read < 3 then ((acked : Int), true)        -- "nothing behind the length to check"
+    else if s.inAt 2 ≠ 107 then (-1, true)
+    else
+      let v0 := if read > 3 then s.inAt 3 else 0
+      if (List.range (proposed - 3)).all fun j => s.inAt (3 + j) == (v0 + 107 * j) % 256 then ((acked : Int), true)
+      else (max, true)
 
 /-- head of the `while` loop of `handshake_autoprobe_fragsize` / of its inner `for` loop (iteration `i`) -/
 def fragHead (s : HState) (evs : List CEvent) (proposed range : Nat) (max : Int) (i : Nat) : HOut :=
@@ -260,8 +272,8 @@ def lazyHead (s : HState) (evs : List CEvent) (i : Nat) : HOut :=
 
 def lazyGot (s : HState) (i : Nat) (read : Int) : HOut :=
   if read > 0 then
-    if s.inIs "BADLEN" ∨ s.inIs "BADIP" ∨ s.inIs "BADCODEC" then afterLazy (lazyRevert s) []
-    else if s.inIs "Lazy" then afterLazy { s with c := { s.c with lazymode := true } } []
+    if s.inIsN read "BADLEN" ∨ s.inIsN read "BADIP" ∨ s.inIsN read "BADCODEC" then afterLazy (lazyRevert s) []
+    else if s.inIsN read "Lazy" then afterLazy { s with c := { s.c with lazymode := true } } []
     else lazyHead s [] (i + 1)
   else lazyHead s [] (i + 1)
 
@@ -362,7 +374,7 @@ def encOfBits (bits : Nat) : Enc := if bits = 6 then .b64 else if bits = 26 then
 
 def switchCodecGot (s : HState) (bits i : Nat) (read : Int) : HOut :=
   if read > 0 then
-    if s.inIs "BADLEN" ∨ s.inIs "BADIP" ∨ s.inIs "BADCODEC" then afterSwitchCodec s []
+    if s.inIsN read "BADLEN" ∨ s.inIsN read "BADIP" ∨ s.inIsN read "BADCODEC" then afterSwitchCodec s []
     else afterSwitchCodec { s with c := { s.c with dataenc := encOfBits bits } } []
   else switchCodecHead s [] (bits) (i + 1)
 
@@ -468,10 +480,10 @@ def rawIpGot (s : HState) (seed i : Nat) (read : Int) : HOut :=
 /-- the raw login's own `select` returned with datagram `d` (`none`: timeout): `recv(dns_fd, in, sizeof(in), 0)` -/
 def rawLoginGot (s : HState) (seed i : Nat) (d : Option (List Nat)) : HOut :=
   match d with
-  | none => rawLoginHead s [] seed (i + 1)
+  | none => rawLoginHead { s with inb := [] } [] seed (i + 1)
   | some d =>
     let d := d.take 4096
-    let s := { s with inb := d ++ s.inb.drop d.length }
+    let s := { s with inb := d }
     if d.length ≥ 16 + RAW_HDR_LEN ∧ d.take 3 = rawHeader.take 3 ∧ d.getD 3 0 &&& RAW_HDR_CMD_MASK = RAW_HDR_CMD_LOGIN ∧
        (d.drop RAW_HDR_LEN).take 16 = Login.loginCalcC s.pw ((seed + 2 ^ 32 - 1) % 2 ^ 32) then rawRet s [] true
     else rawLoginHead s [] seed (i + 1)
